@@ -32,6 +32,10 @@ ASSUMPTIONS = [
 RULE = ("one run = one hypergraph (5-9 nodes incl. isolated, D 2-4, weighted or not) and one (K, seed, n_realizations, max_iter, normalizeU, baseline_r0, "
         "min_value_par) configuration; HypergraphMT.fit is executed twice with the same seed - second time under a jumping/backward clock, perturbed "
         "global PRNGs - and HySC.fit twice.  Non-trivial: >= 2 EM iterations recorded and >= 1 clock anomaly or adversarial permutation; distinct = result digests.")
+# documented frequency of the three listed known findings on the unchanged tree (12000-run soak): 0.07%, 0.14%, 0.6% of
+# all runs.  A surge far above that is reported as a separate violation (<sig>/rate-above-known-finding).
+KNOWN_RATE_BOUNDS = {"C17/mt/loglik-decreased": 0.02, "C17/mt/maxL-differs-from-definition": 0.02,
+                     "C17/mt/row-not-normalised": 0.05}
 TIERS = {"quick": {"runs": 2000, "wall_cap": 240, "det_seeds": 6, "min_tests": 150},
          "thorough": {"runs": 25000, "wall_cap": 3000, "det_seeds": 24, "min_tests": 500}}
 
@@ -42,7 +46,10 @@ def generate(seed, tier):
     D = rng.randint(2, 4)
     n_iso = rng.choice([0, 0, 1, 2])
     core_n = max(3, N - n_iso)
-    spec = _gen.rand_hypergraph_spec(rng, nmin=core_n, nmax=core_n, emin=3, emax=10, smin=2, smax=min(D, core_n),
+    smin = 2
+    if rng.random() < 0.25 and min(D, core_n) >= 3:
+        smin = 3  # no pairwise hyperedge at all
+    spec = _gen.rand_hypergraph_spec(rng, nmin=core_n, nmax=core_n, emin=3, emax=10, smin=smin, smax=min(D, core_n),
                                      labels=rng.choice(["int", "int", "str"]))
     extra = ["iso%d" % i for i in range(N - core_n)] if spec["labels"] == "str" else list(range(100, 100 + N - core_n))
     spec["nodes"] = spec["nodes"] + extra
